@@ -1,0 +1,30 @@
+//go:build verif
+
+package packet
+
+import (
+	"reflect"
+
+	"google.golang.org/protobuf/proto"
+)
+
+// VerifRegister gives a message id to a generated protobuf type that carries no msgid option
+// (stock types such as wrapperspb.StringValue), exactly as registerByExtension would have done,
+// so that GetMessageIDOf / CreateMessageByID / Decode work without a protoc step.
+// Registering the same (id, type) pair again is a no-op.
+func VerifRegister(msgId int32, msg proto.Message) {
+	var rtype = reflect.TypeOf(msg).Elem()
+	var name = rtype.String()
+	msgTypeRegistry[name] = rtype
+	msgNameIds[name] = msgId
+	msgIdNames[msgId] = name
+}
+
+// VerifUnregister removes a registration made by VerifRegister.
+func VerifUnregister(msgId int32) {
+	if name, found := msgIdNames[msgId]; found {
+		delete(msgIdNames, msgId)
+		delete(msgNameIds, name)
+		delete(msgTypeRegistry, name)
+	}
+}
